@@ -206,6 +206,20 @@ func (w *World) Observe(paths []string) (fail string) {
 			}
 		}
 	}
+	{
+		// a second trie object on the same store at the same root (cold node cache) reads the same content
+		t2 := util.NewMerklePatriciaTrie(w.T.GetNodeDB(), w.T.GetVersion(), w.T.GetRoot(), statecache.NewEmpty())
+		for _, p := range paths {
+			v, err := t2.GetNodeValueRaw(util.Path(p))
+			want, ok := w.Model[p]
+			if ok && (err != nil || string(v) != want) {
+				return fmt.Sprintf("a second trie opened on the same store at the same root: lookup(%q) = %q, %v; want %q", p, v, err, want)
+			}
+			if !ok && err != util.ErrValueNotPresent {
+				return fmt.Sprintf("a second trie opened on the same store at the same root: lookup(%q) = %q, %v; want 'value not present'", p, v, err)
+			}
+		}
+	}
 	got := map[string]string{}
 	dup := ""
 	err := w.T.Iterate(context.Background(), func(ctx context.Context, path util.Path, key util.Key, node util.Node) error {
